@@ -191,7 +191,7 @@ func runC02(c *Ctx) {
 		return
 	}
 	gsR1(c, g, "C02.R1")
-	c02R2(c, g)
+	c02R2(c, g, "C02.R2")
 	c02R3(c, g)
 }
 
@@ -345,29 +345,51 @@ func metaRoot(base ssa.Value, g *gossipAnchors) ssa.Value {
 	return base
 }
 
-func c02R2(c *Ctx, g *gossipAnchors) {
-	c.floor("C02.R2", 6)
+func c02R2(c *Ctx, g *gossipAnchors, rule string) {
+	c.floor(rule, 7)
 	all := g.allWrites()
 	for _, fn := range sortedFuncs(all) {
 		fs := computeFacts(fn)
 		for _, w := range all[fn] {
+			if w.kind == "entries-update" {
+				// R2b: an observer applies an entry only when it is newer than
+				// everything it has applied for that node (node-wide version)
+				if cls, _ := g.rootClass(w.root, w.instr, fs); cls != "remote" {
+					continue
+				}
+				ev := entryVarOf(w.val)
+				facts := fs.At(w.instr.Block())
+				newer := anyFact(facts, func(f Fact) bool {
+					return cmpFact(f, token.GTR, func(a ssa.Value) bool {
+						b, ok := loadedField(a, g.eVersion)
+						return ok && strip(b) == strip(ev)
+					}, func(a ssa.Value) bool {
+						b, ok := loadedField(a, g.versionF)
+						return ok && strip(metaRoot(b, g)) == strip(w.root)
+					})
+				})
+				c.check(newer, rule, fnName(fn)+"/apply-only-newer", w.instr.Pos(),
+					"a received entry is stored only under e.Version > the node's applied version",
+					"a received entry can be stored although its version is not above the version already applied for that node: a delayed or duplicated delta can resurrect or roll back keys; facts "+factStrings(facts))
+				continue
+			}
 			if w.kind != "field:Version" {
 				continue
 			}
 			key := fnName(fn) + "/version-store"
 			st := w.instr.(*ssa.Store)
 			if g.isBump(w) {
-				c.ok("C02.R2", key, st.Pos(), "Version = Version + 1 on the same node")
+				c.ok(rule, key, st.Pos(), "Version = Version + 1 on the same node")
 				continue
 			}
 			if cls, _ := g.rootClass(w.root, w.instr, fs); cls == "fresh" {
-				c.ok("C02.R2", key, st.Pos(), "initialisation of a new node")
+				c.ok(rule, key, st.Pos(), "initialisation of a new node")
 				continue
 			}
 			// observer form: R.Version = e.Version under e.Version > R.Version
 			src, ok := loadedField(st.Val, g.eVersion)
 			if !ok {
-				c.fail("C02.R2", key, st.Pos(), "a node's Version is assigned a value that is neither Version+1 nor an applied entry's Version")
+				c.fail(rule, key, st.Pos(), "a node's Version is assigned a value that is neither Version+1 nor an applied entry's Version")
 				continue
 			}
 			facts := fs.At(st.Block())
@@ -388,7 +410,7 @@ func c02R2(c *Ctx, g *gossipAnchors) {
 					others++
 				}
 			}
-			c.check(guard && others == 0, "C02.R2", key, st.Pos(), "Version = e.Version only under e.Version > Version (monotone)",
+			c.check(guard && others == 0, rule, key, st.Pos(), "Version = e.Version only under e.Version > Version (monotone)",
 				"a view's version can move backwards or sideways: Version = e.Version is not guarded by e.Version > Version of the same node; facts "+factStrings(facts))
 		}
 	}
@@ -474,4 +496,519 @@ func c02R3(c *Ctx, g *gossipAnchors) {
 		}
 	}
 	c.note("deltaEntry builders: %v", fnames)
+}
+
+// ---------------------------------------------------------------- C14 / C11 pairing
+
+var watcherFor = map[string][]string{
+	"OnJoin":        {"nodes-insert"},
+	"OnUpsertKey":   {"entries-update"},
+	"OnDeleteKey":   {"entries-update", "entries-delete"},
+	"OnLeave":       {"field:Left"},
+	"OnUnreachable": {"field:Unreachable"},
+	"OnReachable":   {"field:Unreachable"},
+	"OnExpired":     {"nodes-delete"},
+}
+
+func isEntryFieldLoad(v ssa.Value, ev ssa.Value, f *types.Var) bool {
+	b, ok := loadedField(v, f)
+	return ok && strip(b) == strip(ev)
+}
+
+// idMatches: arg names the node whose state object is root.
+func (g *gossipAnchors) idMatches(arg, root ssa.Value) bool {
+	if b, ok := loadedField(arg, g.idF); ok && strip(metaRoot(b, g)) == strip(root) {
+		return true
+	}
+	seen := map[ssa.Value]bool{}
+	var rec func(v ssa.Value) bool
+	rec = func(v ssa.Value) bool {
+		v = strip(v)
+		if seen[v] {
+			return true
+		}
+		seen[v] = true
+		if ph, ok := v.(*ssa.Phi); ok {
+			for _, e := range ph.Edges {
+				if !rec(e) {
+					return false
+				}
+			}
+			return true
+		}
+		if k, _, ok := g.nodesLookup(v); ok {
+			return sameValue(k, arg)
+		}
+		return false
+	}
+	return rec(root)
+}
+
+// pairingRule: every remote mutation is followed, before the next mutation,
+// loop iteration or exit, by its watcher notification with matching arguments;
+// and no notification is reachable without its mutation. kinds restricts the
+// mutation kinds examined ("" = all).
+func pairingRule(c *Ctx, g *gossipAnchors, rule string, only map[string]bool) {
+	p := c.P
+	all := g.allWrites()
+	for _, fn := range sortedFuncs(all) {
+		fs := computeFacts(fn)
+		ws := all[fn]
+		isMut := map[ssa.Instruction]gWrite{}
+		for _, w := range ws {
+			switch w.kind {
+			case "nodes-insert", "entries-update", "entries-delete", "nodes-delete", "field:Left", "field:Unreachable":
+				isMut[w.instr] = w
+			}
+		}
+		for _, w := range ws {
+			if _, ok := isMut[w.instr]; !ok {
+				continue
+			}
+			if only != nil && !only[w.kind] {
+				continue
+			}
+			if fn.Name() == "newClusterState" {
+				continue
+			}
+			// classify the target
+			cls := "remote"
+			if w.root != nil && w.kind != "nodes-insert" {
+				cls, _ = g.rootClass(w.root, w.instr, fs)
+			}
+			if cls == "local" || cls == "fresh" {
+				continue // own writes are not announced to the local watcher
+			}
+			key := fnName(fn) + "/" + w.kind
+			if w.kind == "field:Left" || w.kind == "field:Unreachable" {
+				if b, ok := constBool(w.val); ok {
+					key += fmt.Sprintf("=%v", b)
+				}
+			}
+			ev := entryVarOf(w.val)
+			interesting := func(i ssa.Instruction) bool {
+				if _, _, ok := watcherCall(g, i); ok {
+					return true
+				}
+				if cl, ok := i.(*ssa.Call); ok && cl.Call.IsInvoke() && cl.Call.Method.Name() == "Remove" {
+					_, ok := loadedField(cl.Call.Value, g.fdF)
+					return ok
+				}
+				return false
+			}
+			stop := func(i ssa.Instruction) bool {
+				m, ok := isMut[i]
+				if !ok || i == w.instr {
+					return false
+				}
+				// the insert's own initialisation and unrelated kinds do not end the window
+				return m.kind == w.kind || m.kind == "nodes-insert" || m.kind == "entries-update"
+			}
+			internalFact := func(facts []Fact) bool {
+				return anyFact(facts, func(f Fact) bool { return f.T && isEntryFieldLoad(f.V, ev, g.eInternal) })
+			}
+			deletedFact := func(facts []Fact, want bool) bool {
+				return anyFact(facts, func(f Fact) bool { return f.T == want && isEntryFieldLoad(f.V, ev, g.eDeleted) })
+			}
+			// for entries-delete: the removed entry variable is the one whose Key is the delete key
+			var removed ssa.Value
+			if w.kind == "entries-delete" {
+				if b, ok := loadedField(w.key, g.eKey); ok {
+					removed = b
+				}
+			}
+			done := func(pa *fpath) bool {
+				if len(pa.seen) > 0 {
+					if w.kind == "nodes-delete" {
+						return len(pa.seen) >= 2
+					}
+					return true
+				}
+				switch w.kind {
+				case "entries-update":
+					return internalFact(pa.facts)
+				case "entries-delete":
+					return removed != nil && anyFact(pa.facts, func(f Fact) bool { return f.T && isEntryFieldLoad(f.V, removed, g.eDeleted) })
+				}
+				return false
+			}
+			paths, complete := enumPaths(w.instr, interesting, stop, done, 400)
+			if !complete {
+				c.undecided(rule, key, w.instr.Pos(), "too many paths after the mutation")
+				continue
+			}
+			base := fs.At(w.instr.Block())
+			bad := ""
+			for _, pa := range paths {
+				facts := append(append([]Fact(nil), base...), pa.facts...)
+				if len(pa.seen) == 0 {
+					if pa.endWhy == "done" {
+						continue // exempt by facts
+					}
+					bad = fmt.Sprintf("a path from the mutation ends (%s at %s) without the notification; path facts %s", pa.endWhy, p.pos(pa.end.Pos()), factStrings(pa.facts))
+					break
+				}
+				name, args, isW := watcherCall(g, pa.seen[0])
+				okCall := false
+				switch w.kind {
+				case "nodes-insert":
+					okCall = isW && name == "OnJoin" && sameValue(args[0], w.key)
+				case "entries-update":
+					switch {
+					case isW && name == "OnUpsertKey":
+						okCall = deletedFact(facts, false) && !internalFact(facts) && g.idMatches(args[0], w.root) &&
+							isEntryFieldLoad(args[1], ev, g.eKey) && isEntryFieldLoad(args[2], ev, g.eValue)
+					case isW && name == "OnDeleteKey":
+						okCall = deletedFact(facts, true) && g.idMatches(args[0], w.root) && isEntryFieldLoad(args[1], ev, g.eKey)
+					case isW && name == "OnLeave":
+						okCall = internalFact(facts) // internal entries are folded into membership, not keys
+					}
+				case "entries-delete":
+					okCall = isW && name == "OnDeleteKey" && g.idMatches(args[0], w.root) && sameValue(args[1], w.key)
+				case "field:Left":
+					okCall = isW && name == "OnLeave" && g.idMatches(args[0], w.root)
+				case "field:Unreachable":
+					b, _ := constBool(w.val)
+					want := "OnReachable"
+					if b {
+						want = "OnUnreachable"
+					}
+					okCall = isW && name == want && g.idMatches(args[0], w.root)
+				case "nodes-delete":
+					exp, rem := false, false
+					for _, s := range pa.seen {
+						if n, a, ok := watcherCall(g, s); ok && n == "OnExpired" && sameValue(a[0], w.key) {
+							exp = true
+						} else if cl, ok := s.(*ssa.Call); ok && cl.Call.IsInvoke() && cl.Call.Method.Name() == "Remove" && sameValue(cl.Call.Args[0], w.key) {
+							rem = true
+						}
+					}
+					okCall = exp && rem
+				}
+				if !okCall {
+					bad = fmt.Sprintf("after the mutation the first notification is %s at %s, which does not announce it (wrong callback, arguments or polarity); facts %s", name, p.pos(pa.seen[0].Pos()), factStrings(pa.facts))
+					break
+				}
+			}
+			if bad != "" {
+				c.fail(rule, key, w.instr.Pos(), bad)
+			} else {
+				c.ok(rule, key, w.instr.Pos(), fmt.Sprintf("%d paths: each announces the change (or is exempt: internal entry / already-deleted entry)", len(paths)))
+			}
+		}
+		// reverse direction: no notification without its mutation
+		if only == nil {
+			allInstrs(fn, func(i ssa.Instruction) {
+				name, _, ok := watcherCall(g, i)
+				if !ok {
+					return
+				}
+				var muts []ssa.Instruction
+				for in, m := range isMut {
+					for _, k := range watcherFor[name] {
+						if m.kind == k {
+							muts = append(muts, in)
+						}
+					}
+				}
+				c.check(len(muts) > 0 && !blockReachesAvoiding(fn.Blocks[0], i, muts), rule, fnName(fn)+"/"+name+"-has-cause", i.Pos(),
+					"notification is reachable only through its mutation", "the watcher can be notified of "+name+" on a path that did not perform the corresponding state change")
+			})
+		}
+	}
+	// every watcher call in the module is made from these functions (same package)
+}
+
+func init() {
+	register(&propDef{
+		id: "C14",
+		meta: propMeta{
+			explanation: "Decides the pairing skeleton of 'notifications fold to the visible state': for every write to a remote node's state in pkg/gossip (insert into the nodes table, entry store, entry delete in the compaction arm, Left/Unreachable flag stores, node deletion) every CFG path from the write reaches, before the next write of that kind, the next loop iteration or the function exit, the matching watcher call with matching arguments (OnJoin(key); OnUpsertKey(id,e.Key,e.Value) under e.Deleted false; OnDeleteKey(id,e.Key) under e.Deleted true; OnLeave; OnUnreachable/OnReachable; OnExpired) - internal entries and compaction of already-deleted entries are exempt by their path facts; conversely no watcher call is reachable without its write; watcher calls are made in the mutating function itself (synchronously, under the state lock), so their order is the order of the writes. Not decided: the fold equality over all delivery histories.",
+			ruleText:    "obligation = one remote write site (paths enumerated) or one watcher call site; distinct = distinct keys",
+			assumptions: []string{"watcher methods are invoked only by pkg/gossip clusterState methods (checked)", "clusterState.mu serialises the mutating functions (C20)"},
+		},
+		run: func(c *Ctx) {
+			g := newGossipAnchors(c.P)
+			if !g.ok {
+				c.fail("C14.anchor", "pkg/gossip state types", token.NoPos, "unresolved:"+g.missing)
+				return
+			}
+			c.floor("C14.R1", 14)
+			pairingRule(c, g, "C14.R1", nil)
+			// watcher invoked only from clusterState methods, never via go/defer
+			n := 0
+			for _, f := range c.P.ModFuncs {
+				if isTestFile(c.P.Fset, f.Pos()) {
+					continue
+				}
+				allInstrs(f, func(i ssa.Instruction) {
+					cc := callCommon(i)
+					if cc == nil || !cc.IsInvoke() {
+						return
+					}
+					if _, ok := loadedField(cc.Value, g.watcherF); !ok {
+						if cc.Method.Pkg() == nil || cc.Method.Pkg().Path() != modPath+"/"+gsPkg || !strings.HasPrefix(cc.Method.Name(), "On") {
+							return
+						}
+					}
+					n++
+					_, isCall := i.(*ssa.Call)
+					inState := f.Parent() == nil && f.Signature.Recv() != nil && strings.Contains(f.Signature.Recv().Type().String(), "clusterState")
+					c.check(isCall && inState, "C14.R3", fnName(f)+"/"+cc.Method.Name()+"-synchronous", i.Pos(),
+						"called directly in the mutating clusterState method", "a watcher notification is deferred, queued or issued outside the mutating method: its order relative to other notifications is no longer the order of the state changes")
+				})
+			}
+			c.floor("C14.R3", 9)
+		},
+		mutants: []mutant{
+			{Name: "compaction arm without OnDeleteKey", File: "pkg/gossip/state.go", Old: "\t\t\t\t\t\tif !e.Deleted {\n\t\t\t\t\t\t\t// If we didn't already know the entry was deleted,\n\t\t\t\t\t\t\t// notify the watcher.\n\t\t\t\t\t\t\ts.watcher.OnDeleteKey(entry.ID, e.Key)\n\t\t\t\t\t\t}\n", New: "", Rule: "C14.R1"},
+			{Name: "OnUpsertKey for tombstones", File: "pkg/gossip/state.go", Old: "\t\t\tif e.Deleted {\n\t\t\t\ts.watcher.OnDeleteKey(entry.ID, e.Key)\n\t\t\t} else {", New: "\t\t\tif e.Deleted && e.Value != \"\" {\n\t\t\t\ts.watcher.OnDeleteKey(entry.ID, e.Key)\n\t\t\t} else {", Rule: "C14.R1"},
+			{Name: "ApplyDigest without OnJoin", File: "pkg/gossip/state.go", Old: "\t\t\tEntries: make(map[string]Entry),\n\t\t}\n\n\t\ts.watcher.OnJoin(entry.ID)\n\t}\n}", New: "\t\t\tEntries: make(map[string]Entry),\n\t\t}\n\t}\n}", Rule: "C14.R1"},
+			{Name: "OnReachable dropped", File: "pkg/gossip/state.go", Old: "\t\t\t\ts.watcher.OnReachable(node.ID)\n", New: "", Rule: "C14.R1"},
+			{Name: "compaction notifies already-deleted keys only", File: "pkg/gossip/state.go", Old: "\t\t\t\t\t\tif !e.Deleted {\n\t\t\t\t\t\t\t// If we didn't", New: "\t\t\t\t\t\tif e.Deleted {\n\t\t\t\t\t\t\t// If we didn't", Rule: "C14.R1"},
+			{Name: "OnLeave before the flag on an early path", File: "pkg/gossip/state.go", Old: "\t\t\t\tstate.Left = true\n\t\t\t\tstate.Expiry = time.Now().Add(nodeExpiry)\n\n\t\t\t\ts.watcher.OnLeave(entry.ID)", New: "\t\t\t\tstate.Left = true\n\t\t\t\tstate.Expiry = time.Now().Add(nodeExpiry)\n\n\t\t\t\ts.watcher.OnLeave(state.Addr)", Rule: "C14.R1"},
+			{Name: "expiry notifies in a goroutine", File: "pkg/gossip/state.go", Old: "\t\ts.watcher.OnExpired(id)\n", New: "\t\tgo s.watcher.OnExpired(id)\n", Rule: "C14.R"},
+			{Name: "benign: notification after the metrics call order swapped", Benign: true, File: "pkg/gossip/state.go", Old: "\t\tdelete(s.nodes, id)\n\n\t\ts.metrics.Entries.DeletePartialMatch(prometheus.Labels{\n\t\t\t\"node_id\": id,\n\t\t})\n\n\t\ts.watcher.OnExpired(id)\n", New: "\t\tdelete(s.nodes, id)\n\n\t\ts.watcher.OnExpired(id)\n\n\t\ts.metrics.Entries.DeletePartialMatch(prometheus.Labels{\n\t\t\t\"node_id\": id,\n\t\t})\n"},
+		},
+	})
+}
+
+// ---------------------------------------------------------------- C11
+
+func init() {
+	register(&propDef{
+		id: "C11",
+		meta: propMeta{
+			explanation: "Decides the structural clauses of the membership lifecycle: (R1) Unreachable, Expiry and remote Left are never stored on the local node and the local node is never deleted from the table (same guard forms as C02.R1, helpers classified at every call site); the local Left flag is stored only together with the leave marker; (R2) Unreachable=true and remote Left=true are each paired in the same block with Expiry = now+nodeExpiry, Unreachable=false with Expiry = zero and only under Left false; (R3) the leave marker key is written only by the local leave, and a remote Left=true is stored only under the facts entry.Internal and entry.Key == leftKey; (R4) digest discovery inserts only under entry.Left false; (R5) deleting a node is followed on every path by OnExpired(id) and failureDetector.Remove(id); (R6) LiveNodes and Leave skip local, left and unreachable nodes; the routing side (status mapping, promotion keeps a recorded non-active status, active-only lookup) is checked by the C04 rules which this check also runs. Not decided: 'stays forgotten unless it really returns' (finding F2 in DESIGN.md: a missing mechanism, no sound static rule).",
+			ruleText:    "obligation = one store / insert / delete / append site; distinct = distinct keys",
+			assumptions: []string{"the local id is inserted by the constructor only"},
+		},
+		run: runC11,
+		mutants: []mutant{
+			{Name: "UpdateLiveness revives left nodes", File: "pkg/gossip/state.go", Old: "\t\tif node.ID == s.localID || node.Left {\n", New: "\t\tif node.ID == s.localID {\n", Rule: "C11.R2"},
+			{Name: "local-id skip removed in UpdateLiveness", File: "pkg/gossip/state.go", Old: "\t\tif node.ID == s.localID || node.Left {\n", New: "\t\tif node.Left {\n", Rule: "C11.R1"},
+			{Name: "ApplyDigest accepts left unknown nodes", File: "pkg/gossip/state.go", Old: "\t\tif entry.Left {\n\t\t\tcontinue\n\t\t}\n", New: "", Rule: "C11.R4"},
+			{Name: "expiry without OnExpired", File: "pkg/gossip/state.go", Old: "\t\ts.watcher.OnExpired(id)\n", New: "", Rule: "C11.R5"},
+			{Name: "unreachable without expiry", File: "pkg/gossip/state.go", Old: "\t\t\t\tnode.Unreachable = true\n\t\t\t\tnode.Expiry = time.Now().Add(nodeExpiry)\n", New: "\t\t\t\tnode.Unreachable = true\n", Rule: "C11.R2"},
+			{Name: "reachable keeps the expiry", File: "pkg/gossip/state.go", Old: "\t\t\t\tnode.Unreachable = false\n\t\t\t\tnode.Expiry = time.Time{}\n", New: "\t\t\t\tnode.Unreachable = false\n", Rule: "C11.R2"},
+			{Name: "any internal key marks a node left", File: "pkg/gossip/state.go", Old: "\t\t\tif e.Key == leftKey {\n", New: "\t\t\tif e.Key != compactKey {\n", Rule: "C11.R3"},
+			{Name: "LiveNodes includes left nodes", File: "pkg/gossip/state.go", Old: "\t\tif node.Unreachable || node.Left {\n\t\t\tcontinue\n\t\t}\n\t\tmetadata = append(metadata, node.NodeMetadata)\n\t}\n\treturn metadata\n}\n\n// UnreachableNodes", New: "\t\tif node.Unreachable {\n\t\t\tcontinue\n\t\t}\n\t\tmetadata = append(metadata, node.NodeMetadata)\n\t}\n\treturn metadata\n}\n\n// UnreachableNodes", Rule: "C11.R6"},
+			{Name: "benign: flag/expiry stores reordered in one block", Benign: true, File: "pkg/gossip/state.go", Old: "\t\t\t\tnode.Unreachable = true\n\t\t\t\tnode.Expiry = time.Now().Add(nodeExpiry)\n", New: "\t\t\t\tnode.Expiry = time.Now().Add(nodeExpiry)\n\t\t\t\tnode.Unreachable = true\n"},
+		},
+	})
+}
+
+func runC11(c *Ctx) {
+	p := c.P
+	g := newGossipAnchors(p)
+	if !g.ok {
+		c.fail("C11.anchor", "pkg/gossip state types", token.NoPos, "unresolved:"+g.missing)
+		return
+	}
+	c.floor("C11.R1", 8)
+	c11R1(c, g)
+	c11R2R3(c, g)
+	c.floor("C11.R5", 1)
+	pairingRule(c, g, "C11.R5", map[string]bool{"nodes-delete": true})
+	c11R6(c, g)
+	// routing follows membership
+	c04StatusRules(c, "C11.R6")
+	c04KeyRules(c)
+}
+
+func c11R1(c *Ctx, g *gossipAnchors) {
+	all := g.allWrites()
+	for _, fn := range sortedFuncs(all) {
+		fs := computeFacts(fn)
+		// does this function also publish the leave marker on the local node?
+		publishesLeave := false
+		for _, w := range all[fn] {
+			if w.kind == "entries-update" && g.isLocalState(w.root) {
+				if s, ok := constString(w.key); ok && s == g.leftKey {
+					publishesLeave = true
+				}
+			}
+		}
+		for _, w := range all[fn] {
+			key := fnName(fn) + "/" + w.kind
+			switch w.kind {
+			case "field:Unreachable", "field:Expiry", "field:Left":
+				cls, why := g.rootClass(w.root, w.instr, fs)
+				switch {
+				case cls == "remote" || cls == "fresh":
+					c.ok("C11.R1", key, w.instr.Pos(), why)
+				case cls == "local" && w.kind == "field:Left" && publishesLeave:
+					c.ok("C11.R1", key, w.instr.Pos(), "the local node declares itself left together with publishing the leave marker")
+				case cls == "local":
+					c.fail("C11.R1", key, w.instr.Pos(), "membership field "+w.kind[6:]+" is stored on the local node: the local node can be marked unreachable or expire")
+				default:
+					c.fail("C11.R1", key, w.instr.Pos(), "membership field "+w.kind[6:]+" is stored on a node that may be the local node: "+why)
+				}
+			case "nodes-delete":
+				facts := fs.At(w.instr.Block())
+				keyGuard := anyFact(facts, func(f Fact) bool {
+					return cmpFact(f, token.NEQ, func(a ssa.Value) bool { return sameValue(a, w.key) },
+						func(a ssa.Value) bool { _, ok := loadedField(a, g.localIDF); return ok })
+				})
+				ok, why := g.expiredListKey(w.key, fs)
+				c.check(keyGuard || ok, "C11.R1", key, w.instr.Pos(), "deleted ids never include the local node: "+why, "the local node can be removed from the table: "+why)
+			}
+		}
+	}
+}
+
+func isZeroStruct(v ssa.Value) bool {
+	c, ok := strip(v).(*ssa.Const)
+	return ok && c.Value == nil
+}
+
+func c11R2R3(c *Ctx, g *gossipAnchors) {
+	p := c.P
+	c.floor("C11.R2", 3)
+	c.floor("C11.R3", 2)
+	c.floor("C11.R4", 1)
+	var expiryNs int64 = -1
+	if sp := p.Pkg(gsPkg); sp != nil {
+		if k := sp.Const("nodeExpiry"); k != nil {
+			if n, ok := constInt(k.Value); ok {
+				expiryNs = n
+			}
+		}
+	}
+	if expiryNs <= 0 {
+		c.fail("C11.anchor", "const nodeExpiry", token.NoPos, "not found")
+	}
+	all := g.allWrites()
+	for _, fn := range sortedFuncs(all) {
+		fs := computeFacts(fn)
+		for _, w := range all[fn] {
+			if w.kind != "field:Unreachable" && w.kind != "field:Left" {
+				// R3: leave marker written only on the local node
+				if w.kind == "entries-update" {
+					if s, ok := constString(w.key); ok && s == g.leftKey {
+						c.check(g.isLocalState(w.root), "C11.R3", fnName(fn)+"/leave-marker-store", w.instr.Pos(), "the leave marker is written on the local node only", "the leave marker is written for another node: only the owner may declare itself left")
+					}
+				}
+				// R4: discovery from a digest
+				if w.kind == "nodes-insert" && fn.Name() != "newClusterState" {
+					if b, ok := loadedField(w.key, p.Field(gsPkg, "digestEntry", "ID")); ok {
+						facts := fs.At(w.instr.Block())
+						notLeft := anyFact(facts, func(f Fact) bool {
+							bb, ok := loadedField(f.V, p.Field(gsPkg, "digestEntry", "Left"))
+							return ok && !f.T && path(bb) == path(b)
+						})
+						c.check(notLeft, "C11.R4", fnName(fn)+"/digest-insert", w.instr.Pos(), "unknown nodes are discovered from a digest only when not flagged left",
+							"a node flagged left in a digest can be (re-)discovered: departed nodes are re-learned from peers; facts "+factStrings(facts))
+					}
+				}
+				continue
+			}
+			cls, _ := g.rootClass(w.root, w.instr, fs)
+			if cls != "remote" {
+				continue
+			}
+			val, isConst := constBool(w.val)
+			key := fmt.Sprintf("%s/%s=%v", fnName(fn), w.kind, val)
+			if !isConst {
+				c.fail("C11.R2", key, w.instr.Pos(), "membership flag stored from a non-constant")
+				continue
+			}
+			// the Expiry store in the same block on the same root
+			var exp *ssa.Store
+			for _, in := range w.instr.Block().Instrs {
+				if st, ok := in.(*ssa.Store); ok {
+					if r, fv, ok := g.stateRootOfAddr(st.Addr); ok && fv == g.expF && strip(r) == strip(w.root) {
+						exp = st
+					}
+				}
+			}
+			facts := fs.At(w.instr.Block())
+			switch {
+			case val:
+				good := false
+				if exp != nil {
+					if cl, ok := exp.Val.(*ssa.Call); ok && commonName(&cl.Call) == "(time.Time).Add" {
+						if now, ok := cl.Call.Args[0].(*ssa.Call); ok && commonName(&now.Call) == "time.Now" {
+							if n, ok := constInt(cl.Call.Args[1]); ok && n == expiryNs {
+								good = true
+							}
+						}
+					}
+				}
+				c.check(good, "C11.R2", key, w.instr.Pos(), "paired with Expiry = time.Now().Add(nodeExpiry)", "the flag is set without Expiry = now + nodeExpiry: the node is never forgotten (or forgotten at the wrong time)")
+				if w.kind == "field:Left" {
+					ev := ssa.Value(nil)
+					internal, isLeft := false, false
+					for _, f := range facts {
+						if b, ok := loadedField(f.V, g.eInternal); ok && f.T {
+							internal, ev = true, b
+						}
+					}
+					for _, f := range facts {
+						if cmpFact(f, token.EQL, func(a ssa.Value) bool { b, ok := loadedField(a, g.eKey); return ok && (ev == nil || strip(b) == strip(ev)) },
+							func(a ssa.Value) bool { s, ok := constString(a); return ok && s == g.leftKey }) {
+							isLeft = true
+						}
+					}
+					c.check(internal && isLeft, "C11.R3", key+"/cause", w.instr.Pos(), "a remote node is marked left only on receiving its own internal leave marker",
+						"a remote node can be marked left without having received its internal leave marker; facts "+factStrings(facts))
+				}
+			default: // Unreachable = false
+				good := exp != nil && isZeroStruct(exp.Val)
+				notLeft := anyFact(facts, func(f Fact) bool {
+					b, ok := loadedField(f.V, g.leftF)
+					return ok && !f.T && strip(metaRoot(b, g)) == strip(w.root)
+				})
+				c.check(good && notLeft, "C11.R2", key, w.instr.Pos(), "paired with Expiry = zero, only for nodes that have not left",
+					"a node is marked reachable again without clearing its expiry, or although it has left (a left node is revived); facts "+factStrings(facts))
+			}
+		}
+	}
+}
+
+func c11R6(c *Ctx, g *gossipAnchors) {
+	p := c.P
+	c.floor("C11.R6", 3)
+	// LiveNodes: appends only nodes that are not local, not unreachable, not left
+	if fn := p.Func(gsPkg, "clusterState.LiveNodes"); fn != nil {
+		c.analysed(fnName(fn))
+		fs := computeFacts(fn)
+		n := 0
+		allInstrs(fn, func(i ssa.Instruction) {
+			cl, ok := i.(*ssa.Call)
+			if !ok {
+				return
+			}
+			if b, ok := cl.Call.Value.(*ssa.Builtin); !ok || b.Name() != "append" {
+				return
+			}
+			n++
+			facts := fs.At(cl.Block())
+			flagFalse := func(fv *types.Var) bool {
+				return anyFact(facts, func(f Fact) bool { _, ok := loadedField(f.V, fv); return ok && !f.T })
+			}
+			notLocal := anyFact(facts, func(f Fact) bool {
+				return cmpFact(f, token.NEQ, func(a ssa.Value) bool { _, ok := loadedField(a, g.idF); return ok }, func(a ssa.Value) bool { _, ok := loadedField(a, g.localIDF); return ok })
+			})
+			c.check(flagFalse(g.unreachF) && flagFalse(g.leftF) && notLocal, "C11.R6", fnName(fn)+"/append", cl.Pos(), "live = not local, not unreachable, not left",
+				"LiveNodes can return the local, an unreachable or a left node; facts "+factStrings(facts))
+		})
+		if n == 0 {
+			c.fail("C11.R6", fnName(fn)+"/append", fn.Pos(), "no append found")
+		}
+	} else {
+		c.fail("C11.anchor", "clusterState.LiveNodes", token.NoPos, "not found")
+	}
+	// Gossip.Leave notifies only nodes that are neither left nor unreachable
+	if fn := p.Func(gsPkg, "Gossip.Leave"); fn != nil {
+		c.analysed(fnName(fn))
+		fs := computeFacts(fn)
+		left, unreach := p.Field(gsPkg, "NodeMetadata", "Left"), p.Field(gsPkg, "NodeMetadata", "Unreachable")
+		for _, call := range findCalls(fn, "(*"+modPath+"/pkg/gossip.Gossip).leave") {
+			facts := fs.At(call.Block())
+			f1 := anyFact(facts, func(f Fact) bool { _, ok := loadedField(f.V, left); return ok && !f.T })
+			f2 := anyFact(facts, func(f Fact) bool { _, ok := loadedField(f.V, unreach); return ok && !f.T })
+			c.check(f1 && f2, "C11.R6", fnName(fn)+"/leave-target", call.Pos(), "leave is sent only to nodes that are neither left nor unreachable", "leave can be sent to a left or unreachable node; facts "+factStrings(facts))
+		}
+	}
 }
